@@ -4,7 +4,8 @@
    Router/Pump.v (generated forwarders), Router/NameDefault.v (default-name interceptor),
    Router/Table.v + Gen/Routers.v (descriptor methods vs checked-in routers, regenerated each run). *)
 From SC Require Import Base.Prelude Router.Registry Router.RegistryProofs Router.RouterGet Router.RouterGetProofs
-  Router.Pump Router.PumpProofs Router.NameDefault Router.NameDefaultProofs Router.Table Router.TableProofs Gen.Routers.
+  Router.Pump Router.PumpProofs Router.NameDefault Router.NameDefaultProofs Router.Table Router.TableProofs Gen.Routers
+  Router.Route Router.C12Judge Router.C12JudgeProofs.
 
 (* The registry is a map: for every operation sequence (Add/Remove/Has/Get with fallback and
    factory) results equal those of a plain functional map, whose final contents, change log and
@@ -130,6 +131,19 @@ Theorem C12_all_routed_v0_refuted :
   exists d, In d (e_methods enterleave_api_v0) /\ method_routed enterleave_api_v0 d = false.
 Proof. exact all_routed_v0_refuted. Qed.
 Print Assumptions C12_all_routed_v0_refuted.
+
+(* the predicate the judge evaluates on observations (C12_ok: replay of a plain functional map,
+   exactly one call to the client it holds under the name with the caller's request, transcript
+   conditions without the loop, NotFound touching nobody, log = the plain map's log) holds of the
+   model on EVERY history of registry operations and RPCs on a generated router *)
+Theorem C12_judge_sound : forall g first ops,
+  C12_ok (KHist g first ops (snd (hrun g (init first) ops)) (slog (fst (hrun g (init first) ops)))) = true.
+Proof. exact judge_sound_hist. Qed.
+Print Assumptions C12_judge_sound.
+
+Theorem C12_stream_ok_sound : forall c k, stream_ok c k (pump c k) = true.
+Proof. exact stream_ok_sound. Qed.
+Print Assumptions C12_stream_ok_sound.
 
 (* non-vacuity *)
 Example C12_nonvacuous_race :
